@@ -788,17 +788,17 @@ pub fn run(report: &Report, tier: &Tier) {
     report.floor("P6-late-interface", 1);
     report.floor("P1-after-yield", 20);
     let seed = report.seed;
-    let n: u64 = if tier.thorough { 150_000 } else { 3_000 };
+    let n: u64 = if tier.thorough { 400_000 } else { 3_000 };
     run_parallel(report, n, threads(), tier.budget_s * 0.8, |i, l| {
         run_one(util::mix(seed, 0xC07_0000 + i), l, i % 3 == 0);
     });
     // services renamed by a conflict while probing
-    let n2: u64 = if tier.thorough { 30_000 } else { 600 };
+    let n2: u64 = if tier.thorough { 100_000 } else { 600 };
     run_parallel(report, n2, threads(), tier.budget_s * 0.1, |i, l| {
         renamed_case(util::mix(seed, 0xC07_8000 + i), l);
     });
     // services that lost a simultaneous-probe comparison
-    let n3: u64 = if tier.thorough { 30_000 } else { 600 };
+    let n3: u64 = if tier.thorough { 100_000 } else { 600 };
     run_parallel(report, n3, threads(), tier.budget_s * 0.1, |i, l| {
         tiebreak_case(util::mix(seed, 0xC07_9000 + i), l);
     });
